@@ -1,5 +1,6 @@
 mod fingerprint;
 mod logcap;
+mod needles;
 mod plangen;
 mod oracles;
 mod props;
@@ -42,6 +43,7 @@ fn main() {
         "C10" => props::store::main(&args, props::store::Focus::Differential),
         "C11" => props::c11::main(&args),
         "C12" => props::c12::main(&args),
+        "C13" => props::c13::main(&args),
         "C16" => props::c16::main(&args),
         "C20" => props::c20::main(&args),
         "C18" => props::c18::main(&args),
